@@ -84,7 +84,7 @@ class SList(Sym):
     ``parts``: None for a base sequence, or -- for a concatenation -- the list of its pieces
     ``('elem', value)`` / ``('base', SList)`` in order (structural normal form, used by str.join).
     """
-    __slots__ = ('length', 'elem', 'uid', 'cache', 'seq', 'immutable', 'volatile', 'parts', 'elem_ty', 'ident')
+    __slots__ = ('length', 'elem', 'uid', 'cache', 'seq', 'immutable', 'volatile', 'parts', 'elem_ty', 'ident', 'aux')
 
     def __init__(self, length, elem, uid, seq=None, ident=None):
         self.length = length
@@ -99,6 +99,7 @@ class SList(Sym):
         self.ident = ident
         self.elem_ty = None        # shape of the elements, when created from a ListOf shape
         self.parts = None
+        self.aux = {}          # measures etc. (pyvc.texts)
 
     def __repr__(self):
         return 'SList(%s, len=%s)' % (self.uid, self.length)
